@@ -340,9 +340,6 @@ def classify_exact(opt, diff):
 def run(ctx, verdict, replay=None, model_ok=True):
     rng = ctx.rng
     thorough = ctx.tier == "thorough"
-    extra = os.environ.get("VERIF_EXTRA_KNOWN")
-    if extra and os.path.exists(extra):
-        verdict.findings = verdict.findings + json.load(open(extra)).get("findings", [])
     batch = gb.BldBatch(ctx, "c09")
     replay_plans = []
     if replay:
@@ -351,7 +348,7 @@ def run(ctx, verdict, replay=None, model_ok=True):
         batch.add({"pkg": job["pkg"], "root": "Root", "defs": []}, job["fmt"], veneers=job["veneers"], text=job["schema_text"])
         replay_plans.append(job)
     else:
-        n = 150 if thorough else 70
+        n = 200 if thorough else 120
         k = 0
         for fmt in srcgen.FORMATS:
             for _ in range(n):
